@@ -33,6 +33,9 @@ SEQ_ARG_BUILTINS = {"bytes", "bytearray", "list", "tuple", "set", "frozenset", "
 PURE_CALLS = {"len", "int", "float", "min", "max", "abs", "bool", "isinstance", "tuple", "str", "bytes", "ord", "chr", "range", "repr"}
 
 
+_TYPE_NAMES = {"int", "float", "str", "bytes", "bytearray", "bool", "list", "tuple", "dict", "set", "frozenset", "complex"}
+
+
 class NotInlinable(Exception):
     pass
 
@@ -79,7 +82,7 @@ def const_table(tree: ast.Module) -> Dict[str, ast.expr]:
         if isinstance(e, ast.Constant):
             return True
         if isinstance(e, (ast.Tuple, ast.List, ast.Set)):
-            return all(lit(x) for x in e.elts)
+            return all(lit(x) or (isinstance(x, ast.Name) and x.id in _TYPE_NAMES) for x in e.elts)
         if isinstance(e, ast.UnaryOp) and isinstance(e.op, ast.USub):
             return lit(e.operand)
         if isinstance(e, ast.Call) and isinstance(e.func, ast.Name) and e.func.id == "frozenset" and len(e.args) == 1 and not e.keywords:
@@ -387,6 +390,25 @@ class _Expr(ast.NodeTransformer):
         n.values = vals
         return n
 
+    def visit_Subscript(self, n: ast.Subscript):
+        self.generic_visit(n)
+        sl = n.slice
+        if (
+            isinstance(sl, ast.BinOp)
+            and isinstance(sl.op, ast.Sub)
+            and isinstance(sl.right, ast.Constant)
+            and type(sl.right.value) is int
+            and sl.right.value > 0
+            and isinstance(sl.left, ast.Call)
+            and isinstance(sl.left.func, ast.Name)
+            and sl.left.func.id == "len"
+            and len(sl.left.args) == 1
+            and is_simple(n.value)
+            and dump(sl.left.args[0]) == dump(n.value)
+        ):
+            n.slice = ast.UnaryOp(op=ast.USub(), operand=ast.Constant(value=sl.right.value))
+        return n
+
     def visit_BoolOp(self, n: ast.BoolOp):
         self.generic_visit(n)
         vals = []
@@ -404,6 +426,17 @@ class _Expr(ast.NodeTransformer):
         if swap:
             n.body, n.orelse = n.orelse, n.body
         n.test = t
+        # True if <boolean> else False  ->  <boolean>
+        if isinstance(n.body, ast.Constant) and isinstance(n.orelse, ast.Constant) and isinstance(n.body.value, bool) and isinstance(n.orelse.value, bool) and _is_boolean(n.test):
+            if n.body.value and not n.orelse.value:
+                return n.test
+            if not n.body.value and n.orelse.value:
+                return negate(n.test)
+        # c and X  /  True if c else X   for booleans
+        if isinstance(n.body, ast.Constant) and n.body.value is True and _is_boolean(n.test) and _is_boolean(n.orelse):
+            return ast.BoolOp(op=ast.Or(), values=[n.test, n.orelse])
+        if isinstance(n.orelse, ast.Constant) and n.orelse.value is False and _is_boolean(n.test) and _is_boolean(n.body):
+            return ast.BoolOp(op=ast.And(), values=[n.test, n.body])
         return n
 
     def visit_Call(self, n: ast.Call):
@@ -411,6 +444,8 @@ class _Expr(ast.NodeTransformer):
         f = n.func
         if isinstance(f, ast.Name) and f.id in SEQ_ARG_BUILTINS and n.args and isinstance(n.args[0], ast.Tuple) and len(n.args) == 1:
             n.args[0] = ast.List(elts=n.args[0].elts, ctx=ast.Load())
+        if isinstance(f, ast.Name) and f.id in ("min", "max") and len(n.args) > 1 and not n.keywords and not any(isinstance(a, ast.Starred) for a in n.args):
+            n.args = [ast.List(elts=list(n.args), ctx=ast.Load())]
         if isinstance(f, ast.Name) and f.id in ("dict", "list") and not n.args and not n.keywords:
             return ast.Dict(keys=[], values=[]) if f.id == "dict" else ast.List(elts=[], ctx=ast.Load())
         if isinstance(f, ast.Attribute) and f.attr == "get" and len(n.args) == 2 and isinstance(n.args[1], ast.Constant) and n.args[1].value is None:
@@ -418,6 +453,20 @@ class _Expr(ast.NodeTransformer):
         if isinstance(f, ast.Attribute) and f.attr == "join" and len(n.args) == 1 and isinstance(n.args[0], ast.Tuple):
             n.args[0] = ast.List(elts=n.args[0].elts, ctx=ast.Load())
         return n
+
+
+def _is_boolean(e: ast.expr) -> bool:
+    if isinstance(e, ast.Compare):
+        return True
+    if isinstance(e, ast.UnaryOp) and isinstance(e.op, ast.Not):
+        return True
+    if isinstance(e, ast.BoolOp):
+        return all(_is_boolean(v) for v in e.values)
+    if isinstance(e, ast.Constant) and isinstance(e.value, bool):
+        return True
+    if isinstance(e, ast.Call) and isinstance(e.func, ast.Name) and e.func.id in ("isinstance", "issubclass", "hasattr", "callable", "bool", "any", "all"):
+        return True
+    return False
 
 
 def _percent_to_fstring(fmt: str, arg: ast.expr) -> Optional[ast.expr]:
@@ -459,9 +508,28 @@ def canon_test(t: ast.expr) -> Tuple[ast.expr, bool]:
 
 
 # --------------------------------------------------------------------------------------------- statements
+def _merge_calls(st: ast.If, a: ast.stmt, b: ast.stmt) -> Optional[ast.stmt]:
+    """if c: f(X, A) else: f(X, B)  ->  f(X, A if c else B)   (f and the common arguments are plain names/attributes)"""
+    if not (isinstance(a, ast.Expr) and isinstance(b, ast.Expr) and isinstance(a.value, ast.Call) and isinstance(b.value, ast.Call)):
+        return None
+    ca, cb = a.value, b.value
+    if dump(ca.func) != dump(cb.func) or not is_simple(ca.func) or ca.keywords or cb.keywords or len(ca.args) != len(cb.args) or not call_free(st.test):
+        return None
+    diff = [k for k, (x, y) in enumerate(zip(ca.args, cb.args)) if dump(x) != dump(y)]
+    if len(diff) != 1 or not all(is_simple(x) for k, x in enumerate(ca.args) if k != diff[0]):
+        return None
+    k = diff[0]
+    args = list(ca.args)
+    args[k] = ast.IfExp(test=st.test, body=ca.args[k], orelse=cb.args[k])
+    return ast.Expr(value=ast.Call(func=ca.func, args=args, keywords=[]))
+
+
 class Normaliser:
-    def __init__(self) -> None:
+    def __init__(self, bound_names: Optional[Set[str]] = None, list_locals: Optional[Set[str]] = None) -> None:
         self.fresh = 0
+        # names that are certainly bound wherever they are mentioned (parameters) / locals only ever bound to lists
+        self.bound_names = bound_names
+        self.list_locals = list_locals or set()
 
     # ---- blocks
     def block(self, stmts: list, loop: bool = False) -> list:
@@ -488,6 +556,10 @@ class Normaliser:
             out, c = self._try_return(out)
             changed |= c
             out, c = self._default_override(out)
+            changed |= c
+            out, c = self._identity_loop(out)
+            changed |= c
+            out, c = self._close_to_with(out)
             changed |= c
         return out
 
@@ -600,7 +672,7 @@ class Normaliser:
                     return out[: i + 1] + out[i + 2 :], True
             if isinstance(st, ast.If) and isinstance(nx, ast.Return) and not terminates(st.body) and not terminates(st.orelse):
                 v = nx.value
-                if v is None or is_simple(v) or (isinstance(v, ast.Tuple) and all(is_simple(x) for x in v.elts)):
+                if v is None or sum(1 for _ in ast.walk(v)) <= 40:
                     new = ast.If(test=st.test, body=st.body + [copy.deepcopy(nx)], orelse=st.orelse + [copy.deepcopy(nx)])
                     return out[:i] + self._renorm_if(new) + out[i + 2 :], True
         return out, False
@@ -636,8 +708,18 @@ class Normaliser:
                 ):
                     new = ast.Assign(targets=a.targets, value=ast.IfExp(test=st.test, body=a.value, orelse=b.value))
                 else:
-                    continue
+                    new2 = _merge_calls(st, a, b)
+                    if new2 is None:
+                        continue
+                    new = new2
                 return out[:i] + [new] + out[i + 1 :], True
+            if isinstance(st, ast.If) and len(st.body) == 1 and not st.orelse and self.bound_names is not None:
+                # if c: x = E   (x certainly bound before)  ->  x = E if c else x
+                a = st.body[0]
+                if isinstance(a, ast.Assign) and len(a.targets) == 1 and isinstance(a.targets[0], ast.Name) and a.targets[0].id in self.bound_names and call_free(st.test):
+                    x = a.targets[0].id
+                    new = ast.Assign(targets=a.targets, value=ast.IfExp(test=st.test, body=a.value, orelse=ast.Name(id=x, ctx=ast.Load())))
+                    return out[:i] + [new] + out[i + 1 :], True
         return out, False
 
     def _try_return(self, out: list) -> Tuple[list, bool]:
@@ -657,6 +739,61 @@ class Normaliser:
                 if isinstance(last, ast.Assign) and len(last.targets) == 1 and isinstance(last.targets[0], ast.Name) and last.targets[0].id == nx.value.id:
                     st.body = st.body[:-1] + [ast.Return(value=last.value)]
                     return out[: i + 1] + out[i + 2 :], True
+        return out, False
+
+    def _identity_loop(self, out: list) -> Tuple[list, bool]:
+        """x = []; for t in it: x.append(t)   ->   x = list(it)"""
+        for i in range(len(out) - 1):
+            st, nx = out[i], out[i + 1]
+            if (
+                isinstance(st, ast.Assign)
+                and len(st.targets) == 1
+                and isinstance(st.targets[0], ast.Name)
+                and isinstance(st.value, ast.List)
+                and not st.value.elts
+                and isinstance(nx, ast.For)
+                and not nx.orelse
+                and isinstance(nx.target, ast.Name)
+                and len(nx.body) == 1
+                and isinstance(nx.body[0], ast.Expr)
+            ):
+                c = nx.body[0].value
+                x = st.targets[0].id
+                if (
+                    isinstance(c, ast.Call)
+                    and isinstance(c.func, ast.Attribute)
+                    and c.func.attr == "append"
+                    and isinstance(c.func.value, ast.Name)
+                    and c.func.value.id == x
+                    and len(c.args) == 1
+                    and isinstance(c.args[0], ast.Name)
+                    and c.args[0].id == nx.target.id
+                    and x not in names_in(nx.iter)
+                ):
+                    new = ast.Assign(targets=st.targets, value=ast.Call(func=ast.Name(id="list", ctx=ast.Load()), args=[nx.iter], keywords=[]))
+                    return out[:i] + [new] + out[i + 2 :], True
+        return out, False
+
+    def _close_to_with(self, out: list) -> Tuple[list, bool]:
+        """f = OPEN(...); try: B finally: f.close()   ->   with OPEN(...) as f: B"""
+        for i in range(len(out) - 1):
+            st, nx = out[i], out[i + 1]
+            if (
+                isinstance(st, ast.Assign)
+                and len(st.targets) == 1
+                and isinstance(st.targets[0], ast.Name)
+                and isinstance(st.value, ast.Call)
+                and isinstance(nx, ast.Try)
+                and not nx.handlers
+                and not nx.orelse
+                and len(nx.finalbody) == 1
+                and isinstance(nx.finalbody[0], ast.Expr)
+            ):
+                c = nx.finalbody[0].value
+                f = st.targets[0].id
+                if isinstance(c, ast.Call) and isinstance(c.func, ast.Attribute) and c.func.attr == "close" and isinstance(c.func.value, ast.Name) and c.func.value.id == f and not c.args:
+                    w = ast.With(items=[ast.withitem(context_expr=st.value, optional_vars=ast.Name(id=f, ctx=ast.Store()))], body=nx.body)
+                    return out[:i] + [w] + out[i + 2 :], True
         return out, False
 
     def _default_override(self, out: list) -> Tuple[list, bool]:
@@ -733,6 +870,18 @@ class Normaliser:
             return [st]
         if isinstance(st, ast.Assign):
             return self._assign(st)
+        if (
+            isinstance(st, ast.AugAssign)
+            and isinstance(st.target, ast.Name)
+            and isinstance(st.op, (ast.Add, ast.Sub, ast.Mult))
+            and isinstance(st.value, ast.Constant)
+            and type(st.value.value) in (int, float)
+        ):
+            # x += 1 on a number: the same as rebinding (a number cannot be updated in place)
+            return [ast.Assign(targets=[ast.Name(id=st.target.id, ctx=ast.Store())], value=ast.BinOp(left=ast.Name(id=st.target.id, ctx=ast.Load()), op=st.op, right=st.value))]
+        if isinstance(st, ast.AugAssign) and isinstance(st.op, ast.Add) and isinstance(st.target, ast.Name) and st.target.id in self.list_locals:
+            # a local that is only ever bound to a list: x += y is x.extend(y)
+            return self._expr_stmt(ast.Expr(value=ast.Call(func=ast.Attribute(value=ast.Name(id=st.target.id, ctx=ast.Load()), attr="extend", ctx=ast.Load()), args=[st.value], keywords=[])))
         if isinstance(st, ast.Return):
             if st.value is not None and isinstance(st.value, ast.Constant) and st.value.value is None:
                 st.value = None
@@ -742,7 +891,29 @@ class Normaliser:
                     return self.block(pre) + [ast.Return(value=v)]
             return [st]
         if isinstance(st, ast.Expr):
-            return [st]
+            return self._expr_stmt(st)
+        return [st]
+
+    def _expr_stmt(self, st: ast.Expr) -> list:
+        c = st.value
+        if isinstance(c, ast.Call) and isinstance(c.func, ast.Attribute) and c.func.attr == "extend" and len(c.args) == 1 and not c.keywords and is_simple(c.func.value):
+            recv = c.func.value
+            arg = c.args[0]
+            rp = _paths(recv)
+
+            def app(e: ast.expr) -> ast.stmt:
+                return ast.Expr(value=ast.Call(func=ast.Attribute(value=copy.deepcopy(recv), attr="append", ctx=ast.Load()), args=[e], keywords=[]))
+
+            # x.extend([a, b])  ->  x.append(a); x.append(b)     (the elements do not look at x)
+            if isinstance(arg, (ast.List, ast.Tuple)) and arg.elts and not any(isinstance(e, ast.Starred) for e in arg.elts) and not any(_paths(e) & rp for e in arg.elts) and all(call_free(e) for e in arg.elts):
+                return [app(e) for e in arg.elts]
+            # x.extend(e for t in it)  ->  for t in it: x.append(e)
+            if isinstance(arg, ast.GeneratorExp) and len(arg.generators) == 1 and not arg.generators[0].is_async and not (_paths(arg) & rp):
+                g = arg.generators[0]
+                body: list = [app(arg.elt)]
+                for cnd in reversed(g.ifs):
+                    body = [ast.If(test=cnd, body=body, orelse=[])]
+                return self.block([ast.For(target=g.target, iter=g.iter, body=body, orelse=[])])
         return [st]
 
     def _assign(self, st: ast.Assign) -> list:
@@ -757,6 +928,25 @@ class Normaliser:
             pre, v = self._uncomp(st.value, into=st.targets[0].id)
             if pre:
                 return self.block(pre)
+        # q, r = divmod(a, b)  ->  q = a // b; r = a % b   (simple operands)
+        if (
+            len(st.targets) == 1
+            and isinstance(st.targets[0], ast.Tuple)
+            and len(st.targets[0].elts) == 2
+            and all(isinstance(t, ast.Name) for t in st.targets[0].elts)
+            and isinstance(st.value, ast.Call)
+            and isinstance(st.value.func, ast.Name)
+            and st.value.func.id == "divmod"
+            and len(st.value.args) == 2
+            and all(is_simple(a) for a in st.value.args)
+            and not ({t.id for t in st.targets[0].elts} & (names_in(st.value.args[0]) | names_in(st.value.args[1])))
+        ):
+            q, r = st.targets[0].elts
+            a_, b_ = st.value.args
+            return [
+                ast.Assign(targets=[q], value=ast.BinOp(left=copy.deepcopy(a_), op=ast.FloorDiv(), right=copy.deepcopy(b_))),
+                ast.Assign(targets=[r], value=ast.BinOp(left=copy.deepcopy(a_), op=ast.Mod(), right=copy.deepcopy(b_))),
+            ]
         # (a, b) = (x, y) with simple independent right-hand sides -> two assignments
         if len(st.targets) == 1 and isinstance(st.targets[0], ast.Tuple) and isinstance(st.value, ast.Tuple) and len(st.targets[0].elts) == len(st.value.elts):
             tg, vs = st.targets[0].elts, st.value.elts
@@ -771,6 +961,9 @@ class Normaliser:
                 and not any(names_in(v) & tnames for v in vs)
                 and not (tattrs & vattrs)
             ):
+                return [ast.Assign(targets=[t], value=v) for t, v in zip(tg, vs)]
+            # names bound to independent values: a, b = f(x), g(y)  ->  a = f(x); b = g(y)  (no value mentions a target)
+            if all(isinstance(t, ast.Name) for t in tg) and len({t.id for t in tg}) == len(tg) and not any(names_in(v) & tnames for v in vs) and not any(isinstance(n, (ast.Lambda, ast.GeneratorExp)) for v in vs for n in ast.walk(v)):
                 return [ast.Assign(targets=[t], value=v) for t, v in zip(tg, vs)]
         return [st]
 
@@ -810,19 +1003,30 @@ class Normaliser:
 
     def _unroll(self, st: ast.For) -> Optional[list]:
         """for k in (lit1, lit2): B   ->  B[k:=lit1]; B[k:=lit2]   (no break/continue/else, k not assigned in B)"""
-        if st.orelse or not isinstance(st.iter, (ast.Tuple, ast.List)) or not isinstance(st.target, ast.Name):
+        if st.orelse or not isinstance(st.iter, (ast.Tuple, ast.List)):
             return None
-        if not st.iter.elts or len(st.iter.elts) > 4 or not all(isinstance(x, ast.Constant) for x in st.iter.elts):
+        if not st.iter.elts or len(st.iter.elts) > 4:
             return None
         for n in _walk_loop_level(st.body):
             if isinstance(n, (ast.Break, ast.Continue)):
                 return None
-        k = st.target.id
-        if count_name(st.body, k)[1]:
+        if isinstance(st.target, ast.Name) and all(isinstance(x, ast.Constant) for x in st.iter.elts):
+            keys = [st.target.id]
+            rows = [[x] for x in st.iter.elts]
+        elif (
+            isinstance(st.target, ast.Tuple)
+            and all(isinstance(t, ast.Name) for t in st.target.elts)
+            and all(isinstance(x, ast.Tuple) and len(x.elts) == len(st.target.elts) and all(isinstance(c, ast.Constant) for c in x.elts) for x in st.iter.elts)
+        ):
+            keys = [t.id for t in st.target.elts]
+            rows = [list(x.elts) for x in st.iter.elts]
+        else:
+            return None
+        if any(count_name(st.body, k)[1] for k in keys):
             return None
         out: list = []
-        for lit in st.iter.elts:
-            b, _ = subst(copy.deepcopy(st.body), {k: lit})
+        for row in rows:
+            b, _ = subst(copy.deepcopy(st.body), dict(zip(keys, row)))
             out.extend(b)
         return self.block(out)
 
@@ -892,7 +1096,8 @@ def _eval_order(e: ast.AST, out: list) -> None:
         if isinstance(ch, (ast.expr_context, ast.operator, ast.unaryop, ast.cmpop, ast.boolop)):
             continue
         _eval_order(ch, out)
-    if isinstance(e, (ast.Call, ast.Subscript, ast.BinOp)):
+    if isinstance(e, ast.Call) and not (isinstance(e.func, ast.Name) and e.func.id in PURE_CALLS):
+        # subscripts and arithmetic may raise but change nothing: a value moved past them is computed from the same state
         out.append(("effect", e))
 
 
@@ -913,42 +1118,114 @@ def _in_header(st: ast.stmt, name: str) -> int:
     return sum(count_name(h, name)[0] for h in _header_exprs(st))
 
 
-def _passes_object(st: ast.AST, names: Set[str]) -> bool:
-    """Does st contain a call that receives one of the named objects (or a method call on it)?"""
-    for n in ast.walk(st):
-        if isinstance(n, ast.Call):
-            f = n.func
-            if isinstance(f, ast.Attribute):
-                base = f.value
-                while isinstance(base, ast.Attribute):
-                    base = base.value
-                if isinstance(base, ast.Name) and base.id in names:
+def _path(e: ast.AST) -> Optional[Tuple[str, ...]]:
+    """a.b.c -> ('a', 'b', 'c'); None when e is not a plain dotted chain."""
+    parts: List[str] = []
+    while isinstance(e, ast.Attribute):
+        parts.append(e.attr)
+        e = e.value
+    if isinstance(e, ast.Name):
+        parts.append(e.id)
+        return tuple(reversed(parts))
+    return None
+
+
+def _paths(e: ast.AST) -> Set[Tuple[str, ...]]:
+    """Maximal dotted chains read by the expression."""
+    out: Set[Tuple[str, ...]] = set()
+
+    def walk(n: ast.AST) -> None:
+        pth = _path(n) if isinstance(n, (ast.Name, ast.Attribute)) else None
+        if pth is not None:
+            out.add(pth)
+            return
+        for ch in ast.iter_child_nodes(n):
+            walk(ch)
+
+    walk(e)
+    return out
+
+
+def _related(a: Tuple[str, ...], b: Tuple[str, ...]) -> str:
+    """'eq' / 'a<b' (a strict prefix of b) / 'b<a' / ''"""
+    if a == b:
+        return "eq"
+    if len(a) < len(b) and b[: len(a)] == a:
+        return "a<b"
+    if len(b) < len(a) and a[: len(b)] == b:
+        return "b<a"
+    return ""
+
+
+def may_disturb(st: ast.AST, value: ast.expr, ignore_targets_of: Optional[ast.stmt] = None) -> bool:
+    """Can executing `st` change what `value` evaluates to?  value is call-free apart from pure builtins; it reads the
+    bindings of its dotted paths and, if it subscripts or measures them, their contents."""
+    P = _paths(value)
+    reads_content = any(isinstance(n, (ast.Subscript, ast.Call)) for n in ast.walk(value))
+    own_targets: Set[int] = set()
+    if ignore_targets_of is not None:
+        tg = getattr(ignore_targets_of, "targets", None) or ([ignore_targets_of.target] if hasattr(ignore_targets_of, "target") else [])
+        for t in tg:
+            for n in ast.walk(t):
+                own_targets.add(id(n))
+
+    def hits(r: Optional[Tuple[str, ...]], rebinding: bool) -> bool:
+        """r: the path that is rebound (rebinding) or whose object may be mutated (not rebinding)."""
+        if r is None:
+            return False
+        for p_ in P:
+            rel = _related(r, p_)
+            if rebinding:
+                if rel in ("eq", "a<b"):
                     return True
+                if rel == "b<a" and reads_content:
+                    return True
+            else:
+                if rel == "a<b":
+                    return True  # the object holding the attribute may rebind it
+                if rel in ("eq", "b<a") and reads_content:
+                    return True
+        return False
+
+    for n in ast.walk(st):
+        if id(n) in own_targets:
+            continue
+        if isinstance(n, ast.Name) and isinstance(n.ctx, (ast.Store, ast.Del)):
+            if hits((n.id,), True):
+                return True
+        elif isinstance(n, ast.Attribute) and isinstance(n.ctx, (ast.Store, ast.Del)):
+            if hits(_path(n), True):
+                return True
+        elif isinstance(n, ast.Subscript) and isinstance(n.ctx, (ast.Store, ast.Del)):
+            if hits(_path(n.value), False):
+                return True
+        elif isinstance(n, ast.AugAssign):
+            t = n.target
+            if isinstance(t, ast.Subscript):
+                if hits(_path(t.value), False):
+                    return True
+            elif hits(_path(t), True):
+                return True
+        elif isinstance(n, ast.Call):
+            if isinstance(n.func, ast.Name) and n.func.id in PURE_CALLS:
+                continue
+            if isinstance(n.func, ast.Attribute) and hits(_path(n.func.value), False):
+                return True
             for a in list(n.args) + [k.value for k in n.keywords]:
                 stack = [a]
                 while stack:
                     x = stack.pop()
-                    if isinstance(x, ast.Name) and x.id in names:
-                        return True
-                    if isinstance(x, (ast.Tuple, ast.List, ast.Starred, ast.Dict, ast.Set)):
+                    if isinstance(x, (ast.Name, ast.Attribute)):
+                        if hits(_path(x), False):
+                            return True
+                    elif isinstance(x, (ast.Tuple, ast.List, ast.Starred, ast.Set)):
                         stack.extend(ast.iter_child_nodes(x))
-    return False
-
-
-def _stores_to(st: ast.AST, value: ast.expr) -> bool:
-    """Does st assign a name used by `value`, or an attribute / subscript that `value` reads?"""
-    vn = names_in(value)
-    attrs = {n.attr for n in ast.walk(value) if isinstance(n, ast.Attribute)}
-    has_sub = any(isinstance(n, ast.Subscript) for n in ast.walk(value))
-    for n in ast.walk(st):
-        if isinstance(n, ast.Name) and isinstance(n.ctx, (ast.Store, ast.Del)) and n.id in vn:
-            return True
-        if isinstance(n, ast.Attribute) and isinstance(n.ctx, (ast.Store, ast.Del)) and n.attr in attrs:
-            return True
-        if isinstance(n, ast.Subscript) and isinstance(n.ctx, (ast.Store, ast.Del)) and has_sub:
-            return True
-        if isinstance(n, ast.AugAssign) and isinstance(n.target, ast.Name) and n.target.id in vn:
-            return True
+                    elif isinstance(x, ast.Dict):
+                        stack.extend(v for v in x.values if v is not None)
+        elif isinstance(n, (ast.Yield, ast.YieldFrom, ast.Await)):
+            # control leaves the function: anything reachable may change
+            if any(len(p_) > 1 for p_ in P) or reads_content:
+                return True
     return False
 
 
@@ -980,17 +1257,42 @@ def forward_substitute(fn: ast.AST) -> bool:
                         del block[i]
                         changed = True
                         continue
+                    # the single use is a few plain assignments further down: t = E; a = <pure>; S[t]
+                    if loads == 1:
+                        k = i + 1
+                        vn = names_in(st.value)
+                        while (
+                            k < len(block)
+                            and isinstance(block[k], ast.Assign)
+                            and len(block[k].targets) == 1
+                            and isinstance(block[k].targets[0], ast.Name)
+                            and block[k].targets[0].id not in vn
+                            and call_free(block[k].value)
+                            and t not in names_in(block[k].value)
+                        ):
+                            k += 1
+                        if i + 1 < k < len(block) and _in_header(block[k], t) == 1 and _first_use_is_early(block[k], t):
+                            _replace_header(block[k], t, st.value)
+                            del block[i]
+                            changed = True
+                            continue
+                    # an effect-free value used in one arm of the next `if` only: computed there
+                    if loads == 1 and isinstance(nx, ast.If) and call_free(st.value) and call_free(nx.test) and t not in names_in(nx.test):
+                        arms = [a for a in (nx.body, nx.orelse) if count_name(a, t)[0]]
+                        if len(arms) == 1 and not may_disturb(ast.Expr(value=nx.test), st.value):
+                            arms[0].insert(0, st)
+                            del block[i]
+                            changed = True
+                            continue
                     if call_free(st.value, fresh_matters=True) and t not in names_in(st.value):
                         rest = block[i + 1 :]
                         if count_name(rest, t)[0] == loads:
                             # find the last statement using t; nothing up to it may disturb the value
                             last = max(k for k, s in enumerate(rest) if count_name(s, t)[0])
                             window = rest[: last + 1]
-                            has_mut = any(isinstance(n, (ast.Attribute, ast.Subscript, ast.Call)) for n in ast.walk(st.value))
-                            objs = {n.id for n in ast.walk(st.value) if isinstance(n, ast.Name)} if has_mut else set()
-                            ok = not any(_stores_to(s, st.value) for s in window)
-                            if ok and has_mut:
-                                ok = not any(_passes_object(s, objs) for s in window)
+                            lastst = window[-1]
+                            simple_last = isinstance(lastst, (ast.Assign, ast.AugAssign)) and count_name(getattr(lastst, "targets", None) or [lastst.target], t)[0] == 0
+                            ok = not any(may_disturb(s, st.value) for s in window[:-1]) and not may_disturb(lastst, st.value, ignore_targets_of=lastst if simple_last else None)
                             if ok and not _used_in_nested_scope(window, t):
                                 for k in range(len(window)):
                                     block[i + 1 + k], _ = subst(block[i + 1 + k], {t: st.value})
@@ -1056,6 +1358,12 @@ class Ctx:
 
     def resolve(self, func: ast.expr, self_name: Optional[str]) -> Optional[Tuple[str, ast.AST, bool]]:
         """(key, def node, bound) for a call target that is an inlinable helper."""
+        r = self._resolve(func, self_name)
+        if r is not None and _is_generator(r[1]):
+            return None  # calling a generator function runs none of its body
+        return r
+
+    def _resolve(self, func: ast.expr, self_name: Optional[str]) -> Optional[Tuple[str, ast.AST, bool]]:
         if isinstance(func, ast.Name) and func.id in self.helpers:
             return func.id, self.helpers[func.id], False
         if isinstance(func, ast.Attribute) and isinstance(func.value, ast.Name):
@@ -1072,6 +1380,20 @@ class Ctx:
             if key in self.helpers and base not in ("self",):
                 return key, self.helpers[key], True
         return None
+
+
+def _is_generator(fn: ast.AST) -> bool:
+    if isinstance(fn, ast.AsyncFunctionDef):
+        return True
+    stack = list(fn.body)  # type: ignore[attr-defined]
+    while stack:
+        n = stack.pop()
+        if isinstance(n, (ast.Yield, ast.YieldFrom, ast.Await)):
+            return True
+        if isinstance(n, FuncNode + (ast.Lambda, ast.ClassDef)):
+            continue
+        stack.extend(ast.iter_child_nodes(n))
+    return False
 
 
 def _decorators(fn: ast.AST) -> Set[str]:
@@ -1321,8 +1643,7 @@ class Inliner:
             return None
         self.ctx.counter += 1
         tag = f"${self.ctx.counter}"
-        hl = _helper_locals(h)
-        ren = {n: ast.Name(id=f"{n}{tag}", ctx=ast.Load()) for n in hl}
+        hl = _helper_locals(h) - set(mapping)  # re-assigned parameters are bound below
         body = copy.deepcopy(h.body)  # type: ignore[attr-defined]
         for n in ast.walk(ast.Module(body=body, type_ignores=[])):
             if isinstance(n, ast.Name) and n.id in hl:
@@ -1612,12 +1933,50 @@ def alpha_rename(fn: ast.AST) -> None:
             n.name = order[n.name]
 
 
+def _param_names(fn: ast.AST) -> Set[str]:
+    a = fn.args  # type: ignore[attr-defined]
+    return {x.arg for x in a.posonlyargs + a.args + a.kwonlyargs}
+
+
+def _list_locals(fn: ast.AST) -> Set[str]:
+    """Locals of fn whose every binding is a list display / list comprehension / list(...) and that no nested scope touches."""
+    ok: Dict[str, bool] = {}
+    params = _param_names(fn)
+    for n in ast.walk(fn):
+        if isinstance(n, ast.Assign):
+            for t in n.targets:
+                if isinstance(t, ast.Name):
+                    v = n.value
+                    good = isinstance(v, (ast.List, ast.ListComp)) or (isinstance(v, ast.Call) and isinstance(v.func, ast.Name) and v.func.id == "list")
+                    ok[t.id] = ok.get(t.id, True) and good
+                else:
+                    for x in ast.walk(t):
+                        if isinstance(x, ast.Name) and isinstance(x.ctx, ast.Store):
+                            ok[x.id] = False
+        elif isinstance(n, (ast.For, ast.AsyncFor, ast.With, ast.AsyncWith, ast.comprehension, ast.NamedExpr, ast.AnnAssign)):
+            tgt = getattr(n, "target", None)
+            for x in ast.walk(tgt) if tgt is not None else []:
+                if isinstance(x, ast.Name):
+                    ok[x.id] = False
+            for it in getattr(n, "items", []) or []:
+                if it.optional_vars is not None:
+                    for x in ast.walk(it.optional_vars):
+                        if isinstance(x, ast.Name):
+                            ok[x.id] = False
+        elif isinstance(n, ast.ExceptHandler) and n.name:
+            ok[n.name] = False
+        elif isinstance(n, (ast.Global, ast.Nonlocal)):
+            for x in n.names:
+                ok[x] = False
+    return {k for k, v in ok.items() if v and k not in params}
+
+
 # --------------------------------------------------------------------------------------------- the normal form
 def normal_form(fn: ast.AST, ctx: Ctx) -> str:
     g = copy.deepcopy(fn)
     _Strip().visit(g)
     Inliner(ctx, g).run()
-    norm = Normaliser()
+    norm = Normaliser(bound_names=_param_names(g), list_locals=_list_locals(g))
     prev = None
     for _ in range(8):
         g = _Expr().visit(g)
